@@ -53,6 +53,8 @@ class Env:
         self.step_no = 0
         self.stuck = set()         # (call_no, task index) that never complete
         self.fail = set()          # (call_no, task index) that raise
+        self.in_callback_actor = None
+        self.hold_count = None     # promptness (unordered): (call_no, k): completions stop once k tasks finished
         self.hold_after = None     # promptness: (call_no, i): only batches with all tasks <= i complete
         self.in_gen = None
         self.gen_reentered = False
@@ -64,6 +66,35 @@ class Env:
         self.inv_violations = []
         self.batch_seq = 0
         self.callbacks_running = 0
+        self.stop = {}             # call_no -> (reason, set of id(frame) allowed to finish their slice)
+        self.stop_frames = []      # keeps the grace frames alive (ids stay unique)
+        self.inflight = {}         # call_no -> batches submitted - finished
+        self.max_inflight_by_call = {}
+        self.max_lookahead_by_call = {}
+        self.max_ahead_by_call = {}
+        self.tasks_submitted_by_call = {}
+        self.tasks_finished_by_call = {}
+
+    def mark_stop(self, call_no, reason):
+        """From now on no item of call_no may be taken, except by a dispatch_one_batch
+        invocation that is already past its abort check (its frame is recorded here)."""
+        if call_no in self.stop:
+            return
+        import sys
+        grace = set()
+        frames = sys._current_frames()
+        for a in self.s.actors:
+            f = frames.get(a.thread.ident) if a.thread is not None else None
+            while f is not None:
+                if f.f_code.co_name == "dispatch_one_batch":
+                    grace.add(id(f))
+                    self.stop_frames.append(f)
+                f = f.f_back
+        self.stop[call_no] = (reason, grace)
+
+    def inv(self, name, detail):
+        if len(self.inv_violations) < 5:
+            self.inv_violations.append((name, detail))
 
     # -- called by tasks ------------------------------------------------
     def run_task(self, call_no, i):
@@ -86,7 +117,11 @@ class Env:
                 continue
             if self.hold_after is not None and not b.zombie:
                 c, i = self.hold_after
-                if b.call_no == c and max(b.idxs, default=-1) > i:
+                if b.call_no == c and min(b.idxs, default=-1) > i:
+                    continue
+            if self.hold_count is not None and not b.zombie:
+                c, k = self.hold_count
+                if b.call_no == c and self.tasks_finished_by_call.get(c, 0) >= k:
                     continue
             out.append(b)
         if self.cfg.get("order") == "fifo":
@@ -150,6 +185,12 @@ class VBackend(AutoBatchingMixin, ParallelBackendBase):
         env.tasks_submitted += len(idxs)
         env.events.append(("submit", call_no, tuple(idxs), env.phase()))
         env.note_bounds()
+        env.inflight[call_no] = env.inflight.get(call_no, 0) + 1
+        env.tasks_submitted_by_call[call_no] = env.tasks_submitted_by_call.get(call_no, 0) + len(idxs)
+        if env.inflight[call_no] > env.max_inflight_by_call.get(call_no, 0):
+            env.max_inflight_by_call[call_no] = env.inflight[call_no]
+        if call_no in env.stop and call_no == env.call_no:
+            env.inv("submit-after-stop", "batch %r of call %d submitted after %s" % (idxs, call_no, env.stop[call_no][0]))
         me = pysched.current_actor()
         if env.cfg.get("inline") and not stuck and me is not None and env.s.abort is None:
             # loky: the future may already be finished when add_done_callback runs => inline callback
@@ -160,8 +201,19 @@ class VBackend(AutoBatchingMixin, ParallelBackendBase):
     def retrieve_result_callback(self, out):
         return _retrieve_traceback_capturing_wrapped_call(out)
 
+    def _join_callback_thread(self):
+        # The built-in backends join the thread that runs the completion callbacks when they abort or
+        # terminate (ThreadPool/Pool.terminate join the result handler, loky's shutdown joins the executor
+        # manager thread): an in-progress callback finishes before abort_everything()/terminate() return.
+        env = self.env
+        me = pysched.current_actor()
+        if me is None or env.s.abort is not None or env.in_callback_actor is me:
+            return
+        env.s.block_until(me, lambda: env.callbacks_running == 0, "join of the callback thread")
+
     def abort_everything(self, ensure_ready=True):
         env = self.env
+        self._join_callback_thread()
         env.events.append(("abort", env.call_no, ensure_ready))
         if env.cfg.get("abort", "drop") == "drop":
             env.pending[:] = []
@@ -171,6 +223,7 @@ class VBackend(AutoBatchingMixin, ParallelBackendBase):
 
     def terminate(self):
         env = self.env
+        self._join_callback_thread()
         env.events.append(("terminate", env.call_no))
         if env.cfg.get("abort", "drop") == "drop":
             env.pending[:] = []
@@ -205,6 +258,8 @@ def complete_batch(env, b, me, inline=False):
     out = _TracebackCapturingWrapper(b.func)()
     env.n_finished += 1
     env.tasks_finished += len(b.idxs)
+    env.inflight[b.call_no] = env.inflight.get(b.call_no, 0) - 1
+    env.tasks_finished_by_call[b.call_no] = env.tasks_finished_by_call.get(b.call_no, 0) + len(b.idxs)
     env.events.append(("finish", b.call_no, tuple(b.idxs), b.zombie))
     if env.cfg.get("batch_size") == "auto" and not inline:
         d = DURATIONS[s.choose(len(DURATIONS), "batch duration", cost=1)]
@@ -212,11 +267,16 @@ def complete_batch(env, b, me, inline=False):
     if not inline:
         s.point(me, "completion of batch %s" % (b.idxs,))
     env.callbacks_running += 1
+    prev = env.in_callback_actor
+    env.in_callback_actor = me
     try:
         b.callback(out)
     finally:
         env.callbacks_running -= 1
+        env.in_callback_actor = prev
     env.events.append(("cb_end", b.call_no, tuple(b.idxs)))
+    if any((b.call_no, i) in env.fail for i in b.idxs):
+        env.mark_stop(b.call_no, "a task failure was registered")
 
 
 def completion_body(env, me_holder):
@@ -235,13 +295,13 @@ def completion_body(env, me_holder):
             continue
         n = len(cands)
         can_withhold = bool(env.cfg.get("withhold")) and not env.caller_done
-        c = s.choose(n + (1 if can_withhold else 0), "which batch completes (%d pending)" % n, cost=1, kind="ord")
-        if c >= n:
+        if can_withhold and s.choose(2, "deliver or withhold a completion", cost=1, kind="env") == 1:
             env.withheld = True
             env.withhold_clock = s.clock
             env.withhold_step = env.step_no
             env.events.append(("withhold", env.call_no))
             continue
+        c = s.choose(n, "which batch completes (%d pending)" % n, cost=1, kind="ord")
         complete_batch(env, cands[c], me)
 
 
@@ -260,19 +320,28 @@ def gen_inputs(env, call_no, n, iter_fail_at=None):
         env.pullers.setdefault(call_no, set()).add(a.name if a is not None else "?")
         env.events.append(("take", call_no, i, a.name if a is not None else "?", env.phase(),
                            env.tasks_finished, env.tasks_submitted))
-        ahead = env.taken[call_no] - env.tasks_finished_of(call_no)
-        if ahead > env.max_ahead_finished:
-            env.max_ahead_finished = ahead
+        la = env.taken[call_no] - env.tasks_submitted_by_call.get(call_no, 0)
+        if la > env.max_lookahead_by_call.get(call_no, 0):
+            env.max_lookahead_by_call[call_no] = la
+        ahead = env.taken[call_no] - env.tasks_finished_by_call.get(call_no, 0)
+        if ahead > env.max_ahead_by_call.get(call_no, 0):
+            env.max_ahead_by_call[call_no] = ahead
+        if call_no in env.stop:
+            import sys
+            f = sys._getframe()
+            ok = False
+            grace = env.stop[call_no][1]
+            while f is not None:
+                if id(f) in grace:
+                    ok = True
+                    break
+                f = f.f_back
+            if not ok:
+                env.inv("take-after-stop", "item %d of call %d taken by %s after %s" % (
+                    i, call_no, a.name if a is not None else "?", env.stop[call_no][0]))
         item = delayed(env.run_task)(call_no, i)
         env.in_gen = None
         yield item
-
-
-def _tasks_finished_of(self, call_no):
-    return sum(len(e[2]) for e in self.events if e[0] == "finish" and e[1] == call_no)
-
-
-Env.tasks_finished_of = _tasks_finished_of
 
 
 def ensure_instrumented():
@@ -383,6 +452,7 @@ def _caller_program(cfg, env, obs):
                 env.call_no += 1
                 c = env.call_no
                 rec["call_no"] = c
+                rec["tasks_finished_before"] = dict(env.tasks_finished_by_call)
                 n = spec["n"]
                 for i in spec.get("fail", ()):
                     env.fail.add((c, i))
@@ -390,6 +460,8 @@ def _caller_program(cfg, env, obs):
                     env.stuck.add((c, i))
                 if spec.get("hold_after") is not None:
                     env.hold_after = (c, spec["hold_after"])
+                if spec.get("hold_count") is not None:
+                    env.hold_count = (c, spec["hold_count"])
                 if spec.get("input", "gen") == "gen":
                     inp = gen_inputs(env, c, n, spec.get("iter_fail_at"))
                 else:
@@ -407,15 +479,20 @@ def _caller_program(cfg, env, obs):
                 rec["call_no"] = c
                 got = rec.setdefault("got", [])
                 g = gens[c]
+                mode = step[3] if len(step) > 3 else None
+                base = step[4] if len(step) > 4 else 0
                 for _ in range(k):
-                    if len(step) > 3 and step[3] is not None:
-                        env.hold_after = (c, step[3] + len(got))
+                    if mode == "ordered":
+                        env.hold_after = (c, base + len(got))
+                    elif mode == "unordered":
+                        env.hold_count = (c, base + len(got) + 1)
                     got.append(next(g))
                 del g
             elif kind == "exhaust":
                 c = step[1]
                 rec["call_no"] = c
                 env.hold_after = None
+                env.hold_count = None
                 got = rec.setdefault("got", [])
                 g = gens[c]
                 for v in g:
@@ -426,15 +503,20 @@ def _caller_program(cfg, env, obs):
                 rec["call_no"] = c
                 rec["taken_before"] = dict(env.taken)
                 rec["submitted_before"] = env.n_submitted
+                env.hold_after = env.hold_count = None
                 gens[c].close()
+                env.mark_stop(c, "close() returned")
             elif kind == "drop":
                 c = step[1]
                 rec["call_no"] = c
                 rec["taken_before"] = dict(env.taken)
                 rec["submitted_before"] = env.n_submitted
+                env.hold_after = env.hold_count = None
                 del gens[c]
+                env.mark_stop(c, "the generator was dropped")
             elif kind == "release":    # stop withholding completions
                 env.hold_after = None
+                env.hold_count = None
             else:
                 raise ValueError(kind)
         except Abort:
